@@ -181,6 +181,24 @@ fn deliver_corrupted(cx: &mut Cx, s: u64, f: CredFrame, sk: Bytes, issuer: NodeI
     // (2) every single-element list fault for small L, a sample otherwise
     let l = lnorm(&f.msgs).len();
     let picks: Vec<ListFault> = ListFault::pick(&mut cx.ch, l, 70, 30);
+    // Mallory: ENCODING CONFUSION -- a message replaced by an encoding of the scalar it maps to
+    // (32 raw octets, the serde form {"value":"<hex>"}, the hex text): a verifier that accepts
+    // "pre-mapped" messages verifies a different octet string
+    let confusions: Vec<(usize, &'static str, Bytes)> = if l > 0 {
+        let i = (cx.run_index as usize) % l;
+        match crate::refmodel::messages_to_scalars(f.suite, &[lnorm(&f.msgs)[i].clone()], &crate::refmodel::api_id(f.suite, false)) {
+            Ok(sc) => { let b = sc[0].to_be_bytes(); vec![(i, "scalar_octets", b.to_vec()), (i, "scalar_serde_json", format!("{{\"value\":\"{}\"}}", hex::encode(b)).into_bytes()), (i, "scalar_hex_text", hex::encode(b).into_bytes())] }
+            Err(_) => vec![],
+        }
+    } else { vec![] };
+    for (i, name, enc) in confusions {
+        let mut g = f.clone();
+        let mut v = g.msgs.take().unwrap_or_default();
+        if v[i] == enc { continue; }
+        v[i] = enc;
+        g.msgs = Some(v);
+        deliver(cx, holder, g, format!("forged:message_as_{name}"), ideal.clone());
+    }
     for lf in picks {
         let mut g = f.clone();
         let mut v = g.msgs.take().unwrap_or_default();
